@@ -17,7 +17,7 @@ from topsim.core.instrument import Observation
 PIN = {}
 FUNCTIONS = [Config.parse_cluster_config, Config.parse_instrument_config, Config.parse_buffer_config, Config.__init__]
 META = {
-    'bounds': {'C16.unit': 'symbolic str (len <= 8) or symbolic int >= 1', 'C16.cluster/buffer numbers': 'unbounded ints (2 machines)',
+    'bounds': {'C16.unit': 'symbolic str (len <= 8) or symbolic int >= 1', 'C16.cluster/buffer numbers': 'unbounded ints (2 machines); every section parsed twice from one Config object',
                'C16.instrument (H2)': 'start, duration = unit x (0..30 / 1..30); units seconds, minutes, hours, misspelt, custom 3, 7, 49, 300, 600 (case-split, native)',
                'C16.instrument (S1)': 'unbounded ints, rational division (whole multiples make it exact: lemma L3)'},
     'outside_bounds': ['boolean or float units', 'non-integer rates (round() of a float product)', 'starts/durations that are not whole multiples of the unit'],
@@ -79,6 +79,17 @@ def cb_tag(unit, f0, f1, b0, b1, sysbw, hcap, hrate, ccap, crate):
         return 'C16/hot-ingest-rate-not-scaled-by-unit'
     if cold[0].max_data_rate != crate * k:
         return 'C16/cold-data-rate-not-scaled-by-unit'
+    # the same Config object read again (a second Cluster / Buffer built from it) must give the same quantities
+    machines2, bw2 = c.parse_cluster_config()
+    for m, m2 in zip(machines, machines2):
+        if m2.cpu != m.cpu or m2.bandwidth != m.bandwidth:
+            return 'C16/second-parse-of-the-cluster-section-scales-again'
+    if bw2 != bw or len(machines2) != len(machines):
+        return 'C16/second-parse-of-the-cluster-section-scales-again'
+    hot2, cold2 = c.parse_buffer_config()
+    if (hot2[0].max_ingest_data_rate, cold2[0].max_data_rate, hot2[0].total_capacity, cold2[0].total_capacity) != \
+            (hot[0].max_ingest_data_rate, cold[0].max_data_rate, hot[0].total_capacity, cold[0].total_capacity):
+        return 'C16/second-parse-of-the-buffer-section-scales-again'
     return None
 
 
@@ -144,6 +155,9 @@ def _instr(uk, s, d, rate, demand, ingest):
         return 'C16/count-or-demand-scaled'
     if ob.ingest_data_rate * ob.duration != rate * d * k:
         return 'C16/data-volume-depends-on-unit'
+    total2, pipelines2, obs2, max_ingest2 = c.parse_instrument_config('telescope')
+    if (obs2[0].est, obs2[0].duration, obs2[0].ingest_data_rate, obs2[0].demand, total2, max_ingest2) != (ob.est, ob.duration, ob.ingest_data_rate, ob.demand, total, max_ingest):
+        return 'C16/second-parse-of-the-instrument-section-scales-again'
     return None
 
 
